@@ -127,7 +127,7 @@ ADDED = {
     "C12": " Also: (f) branches built in a loop do not share one state object (the simulator evolves branch states in place); shallow copies (copy.copy) keep their element aliases, the parts of a memoised object reached through attributes belong to it and attribute stores on them are writes. Also: a shallow copy.copy of a registered instruction is not a copy (the parameter dictionaries stay shared).",
     "C13": " Also: (g) accumulator protocol for every cutoff >= 1: a constant index written into connector.accumulator(size=cutoff) is below the size and the start of a connector.range does not exceed its limit (fixed-size tf.TensorArray, tf.range). Also: the preparation-order validator may only test isinstance(., Preparation) (closed world). Also: (h) the number of modes inferred from a program is an aggregate (max) over all modes of every instruction, never one element of a mode tuple; (i) GaussianTransform._validate tests both Bogoliubov conditions - is_symplectic on the assembled [[P, A], [conj A, conj P]] with the complex symplectic form, or both block identities, compared in the matrix-word algebra.",
     "C14": " Also: doubling layouts - v.repeat(2) is pairwise (xpxp-like), concatenate([v, v]) / tile(v, 2) and the complex covariance / displacement are block (xxpp-like); sums and products combine one layout. Also: (c) every GaussianState constructed inside the library receives the config of the state it is derived from (hbar lives there); (d) ordering tags xpxp/xxpp: the index maps are applied to quantities of the source ordering, sums and products combine one ordering, ordering-named getters/setters return/receive that ordering. Also: elements of an ordering index map are positions in its source ordering; a callee that uses the elements of one parameter as indices into other parameters (summary by dataflow, also through nested functions) must receive positions and quantities of one ordering. Also: tolerance-based zero tests (allclose / isclose with 0) are applied to quantities of hbar-degree 0.",
-    "C15": " Also: (c) each Givens step of the Clements sweep nulls one element of the addressed pair for the angles _get_angles returns, symbolically for every non-zero pivot and with the degenerate arm's constants for a zero pivot.",
+    "C15": " Also: (c) each Givens step of the Clements sweep nulls one element of the addressed pair for the angles _get_angles returns, symbolically for every non-zero pivot and with the degenerate arm's constants for a zero pivot. Also: (d) the factors williamson returns recompose the input: with the contracts of sqrtm / real Schur / the orthogonal basis change and the arithmetic of diagonal matrices, S D S^T reduces to M in a free word algebra, D is built as a diagonal matrix and the matrix handed to the Schur decomposition is M^(-1/2) Omega M^(-1/2); the numerical behaviour of Takagi / Euler / the graph embedding and degenerate spectra are NOT decided.",
     "C16": " Also: the rule is applied per mode-tuple source when a function handles two (register and instruction), to return-based shortcuts, to sequential positional edits (np.insert / delete / pop at positions from the mode tuple inside a loop over it), and to the methods of Program, Simulator and Instruction. Also: a fullness test by length, or any test over order-insensitive aggregates of the mode tuple (len/min/max/sum/set) that substitutes a value ignoring the tuple; the complement of the complement; outcome projections that run in parallel with the mode tuple. Also: (e) a state reduced to the measured modes is never addressed again with the original mode labels (no double relabelling, also through a parameter of a nested function); sequential `del x[p]` at positions from the mode tuple inside a loop over the tuple or its reverse. Also: parameters named *_modes are mode-tuple sources wherever they occur; an elementwise image of a sorted tuple is as order-destroyed as the sorted tuple. Masks obtained by negating the mask of the complement are masks of the mode tuple. Prefix / suffix slices of the mode tuple keep its order; membership masks (np.isin(np.arange(d), modes)) are masks of the mode tuple and selections through masks are reported like stores.",
     "C17": " Also: (e) in a guarded gate step of the fermionic Fock simulator the coefficients that multiply amplitudes read from the state vector are loop-invariant (depend on the gate parameters, never on the basis state visited: on adjacent modes the Jordan-Wigner strings cancel); (f) every implementation of calculate_interferometer_on_fermionic_fock_space appends exactly one constant (first, zero particles) and every later representation depends on the matrix and, inside the loop, on a previous representation. Also: the predicate the adjacency guards rely on (are_modes_consecutive) looks at the elements of the tuple, not only at single elements and order-insensitive aggregates (first, last, length). Also: (g) a step of the fermionic Gaussian simulator that reads the normal block D also reads the pairing block E; (e) counts control dependence for coefficients with several definitions.",
     "C18": " Also: every use of an operand's raw amplitude map in __add__ is weighted by that operand's coefficient. Also: `map.get(key, default)` on an operand's raw amplitude map is a read of a raw amplitude like `map[key]`.",
